@@ -1,4 +1,5 @@
 import SwcVerif.Refine.Parse
+import SwcVerif.Props.C02
 /-! # C02, tied to the source by the imperative translator
 
 `Gen.Algo.parse_swc` and `Gen.Algo.file_reader_exit` are regenerated on every run from `swcgeom/core/swc_utils/io.py::parse_swc` (the
@@ -138,5 +139,134 @@ example : (match parse_swc exRow exCmt (· = 0) (· % 10 = 2) exCols [] ⟨some 
     | _ => false) = true := by decide +kernel
 example : isInvalid exRow exCmt (· % 10 = 2) 7 = true ∧ isInvalid exRow exCmt (· % 10 = 2) 20 = false := by decide +kernel
 end
+
+/-! ## the generated loop and the hand-written model `SwcText.readLines`
+
+Under the obvious instantiation — a line is a string, `rowOf` the model's recogniser `parseData` (the converted fields of the row it
+returns), `commentOf` / `isHeader` / `blank` the model's comment, header and blank tests — the generated function succeeds exactly when
+`SwcText.readLines` does, with the same rows (as columns), comments and warning flag, and raises for the same first invalid line.  So
+`C02.read_ok_iff` / `read_never_partial` and the recogniser theorems (`data_line_fields`, …) speak about the loop AS TRANSLATED. -/
+section Model
+open SwcText
+
+inductive Fld where
+  | nat (n : Nat)
+  | sci (s : Sci)
+  | int (i : Int)
+deriving DecidableEq, Repr
+instance : Inhabited Fld := ⟨.nat 0⟩
+
+/-- the converted groups of a matched row, in column order -/
+def fieldsOf (r : Row) : List Fld := [.nat r.id, .nat r.type, .sci r.x, .sci r.y, .sci r.z, .sci r.r, .int r.pid] ++ r.extra.map .sci
+def mRowOf (nx : Nat) (l : Str) : Option (List Fld × Bool) := (parseData nx l).map (fun p => (fieldsOf p.1, p.2))
+def mCommentOf (l : Str) : Option Str := match dropWs l with | '#' :: t => some (stripNl t) | _ => none
+def mIsHeader (c : Str) : Bool := !keepComment c
+def mBlank (l : Str) : Bool := isSpaceStr l
+
+theorem extras_length : ∀ (k : Nat) (s : Str) (fs : List Sci) (r : Str), extras k s = some (fs, r) → fs.length = k := by
+  intro k
+  induction k with
+  | zero => intro s fs r h; simp [extras] at h; simp [h.1.symm]
+  | succ k ih =>
+    intro s fs r h
+    simp only [extras, Option.bind_eq_bind, Option.bind_eq_some_iff, Option.pure_def, Option.some.injEq, Prod.mk.injEq, Prod.exists] at h
+    obtain ⟨s1, -, f, s2, -, fs', s3, h3, rfl, -⟩ := h
+    simp [ih _ _ _ h3]
+
+theorem parseData_extra_length (nx : Nat) (l : Str) (row : Row) (tl : Bool) (h : parseData nx l = some (row, tl)) : row.extra.length = nx := by
+  simp only [parseData, Option.bind_eq_bind, Option.bind_eq_some_iff, Option.pure_def, Option.some.injEq, Prod.mk.injEq, Prod.exists] at h
+  obtain ⟨_, _, _, _, _, _, _, _, _, _, _, _, _, _, _, _, _, _, _, _, _, _, _, _, _, _, _, _, _, _, _, _, _, ex, _, hex, _, _, rfl, _⟩ := h
+  exact extras_length _ _ _ _ hex
+
+theorem mRowOf_long (nx : Nat) (extras : List String) (hx : extras.length = nx) :
+    ∀ l fs t, mRowOf nx l = some (fs, t) → 7 + extras.length ≤ fs.length := by
+  intro l fs t h
+  simp only [mRowOf, Option.map_eq_some_iff, Prod.mk.injEq, Prod.exists] at h
+  obtain ⟨row, tl, hp, rfl, -⟩ := h
+  simp [fieldsOf, parseData_extra_length nx l row tl hp, hx]; omega
+
+theorem dropWs_nil_iff (l : Str) : dropWs l = [] ↔ l.all isWs = true := by
+  induction l with
+  | nil => simp [dropWs]
+  | cons c cs ih => by_cases h : isWs c = true <;> simp [dropWs, h, ih]
+
+/-- line by line, the three tests of the instantiation are the model's `classify` -/
+theorem line_agrees (nx : Nat) (l : Str) :
+    (isInvalid (mRowOf nx) mCommentOf mBlank l = true ↔ classify nx l = .invalid) ∧
+    rowAt (mRowOf nx) l = (dataOf nx l).map fieldsOf ∧
+    keptComment (mRowOf nx) mCommentOf mIsHeader l = C02.commentOf nx l ∧
+    tailAt (mRowOf nx) l = tailOf nx l := by
+  unfold isInvalid rowAt keptComment tailAt dataOf C02.commentOf tailOf classify mRowOf
+  cases hp : parseData nx l with
+  | some p => obtain ⟨row, tl⟩ := p; simp
+  | none =>
+    simp only [Option.map_none, Option.isNone_none, Bool.true_and, mCommentOf, mBlank, isSpaceStr, mIsHeader]
+    cases hd : dropWs l with
+    | nil =>
+      have := (dropWs_nil_iff l).1 hd
+      cases l <;> simp_all
+    | cons c t =>
+      have hne : l.all isWs = false := by
+        cases h : l.all isWs
+        · rfl
+        · have := (dropWs_nil_iff l).2 h; rw [hd] at this; cases this
+      by_cases hc : c = '#'
+      · subst hc; cases hk : keepComment (stripNl t) <;> simp [hk]
+      · have : ∀ (α : Type) (a b : α), (match c :: t with | '#' :: t => a | _ => b) = b := by
+          intro α a b; split
+          · next h => cases h; exact absurd rfl hc
+          · rfl
+        simp_all
+
+/-- **the generated function returns a table exactly when the model does — the same one** -/
+theorem generated_ok_iff_model (nx : Nat) (cols extras : List String) (hc : cols.length = 7) (hx : extras.length = nx)
+    (reader : FileReader) (ls : List Str) (ws : List Py.Exc) (rd : FileReader) (df : Py.Dict String (List Fld)) (cs : List Str) :
+    parse_swc (mRowOf nx) mCommentOf mIsHeader mBlank cols extras reader ⟨ls, none⟩ = some (ws, rd, .ok (df, cs)) ↔
+      ∃ res, readLines nx ls = .ok res ∧ df = tableOf cols extras (res.rows.map fieldsOf) ∧ cs = res.comments ∧
+        ws = (match firstTail (mRowOf nx) ls 0 with | some n => [warnExc n] | none => []) ∧ (ws ≠ [] ↔ res.warned = true) ∧
+        rd = closeReader reader := by
+  have e1 : ls.filterMap (rowAt (mRowOf nx)) = (ls.filterMap (dataOf nx)).map fieldsOf := by
+    rw [List.map_filterMap]; congr 1; funext l; exact (line_agrees nx l).2.1
+  have e2 : ls.filterMap (keptComment (mRowOf nx) mCommentOf mIsHeader) = ls.filterMap (C02.commentOf nx) := by
+    congr 1; funext l; exact (line_agrees nx l).2.2.1
+  have e3 : ls.any (tailAt (mRowOf nx)) = ls.any (tailOf nx) := by
+    congr 1; funext l; exact (line_agrees nx l).2.2.2
+  have e4 : (∀ l ∈ ls, isInvalid (mRowOf nx) mCommentOf mBlank l = false) ↔ (∀ l ∈ ls, classify nx l ≠ .invalid) := by
+    constructor
+    · intro h l hl hc; have := (line_agrees nx l).1.2 hc; rw [h l hl] at this; cases this
+    · intro h l hl
+      cases hi : isInvalid (mRowOf nx) mCommentOf mBlank l
+      · rfl
+      · exact absurd ((line_agrees nx l).1.1 hi) (h l hl)
+  rw [generated_read_ok_iff _ _ _ _ cols extras reader ls hc (mRowOf_long nx extras hx)]
+  constructor
+  · rintro ⟨hall, rfl, rfl, rfl, rfl⟩
+    refine ⟨⟨ls.filterMap (dataOf nx), ls.filterMap (C02.commentOf nx), ls.any (tailOf nx)⟩,
+      (read_ok_iff nx ls _).2 ⟨e4.1 hall, rfl, rfl, rfl⟩, by rw [e1], e2, rfl, ?_, rfl⟩
+    rw [generated_warning_iff, e3]
+  · rintro ⟨res, hres, rfl, rfl, rfl, -, rfl⟩
+    obtain ⟨hall, hrows, hcs, -⟩ := (read_ok_iff nx ls res).1 hres
+    exact ⟨e4.2 hall, by rw [e1, hrows], by rw [e2, hcs], rfl, rfl⟩
+
+/-- **… and raises `invalid row N` exactly when the model reports `invalidRow N`** -/
+theorem generated_error_iff_model (nx : Nat) (cols extras : List String) (hc : cols.length = 7) (hx : extras.length = nx)
+    (reader : FileReader) (ls : List Str) (n : Nat) :
+    readLines nx ls = .error (.invalidRow n) →
+      ∃ ws, parse_swc (mRowOf nx) mCommentOf mIsHeader mBlank cols extras reader ⟨ls, none⟩
+        = some (ws, closeReader reader, .error (invalidExc (n : Int))) := by
+  intro h
+  rcases SwcText.first_invalid nx ls with hv | ⟨pre, bad, post, rfl, hpre, hbad⟩
+  · rw [readLines_eq, readLinesWith_valid false nx ls hv] at h; cases h
+  · rw [read_never_partial nx pre bad post hpre hbad] at h
+    simp only [Except.error.injEq, Err.invalidRow.injEq] at h
+    subst h
+    have := generated_never_partial (mRowOf nx) mCommentOf mIsHeader mBlank cols extras reader pre bad post none hc (mRowOf_long nx extras hx)
+      (fun l hl => by
+        cases hi : isInvalid (mRowOf nx) mCommentOf mBlank l
+        · rfl
+        · exact absurd ((line_agrees nx l).1.1 hi) (hpre l hl))
+      ((line_agrees nx bad).1.2 hbad)
+    simpa using this
+end Model
 
 end C02
